@@ -20,7 +20,7 @@ def _stamps(rng):
             b"\x0f\x00\xe8\x03\xff\xff\xff\x7f", b"Chapter 1 ", b"\x2f\x00\x06\x00\x01\x00\x01\x00\x01\x00"]
 
 ZIP_OPS = ["xml_truncate", "xml_unclose", "xml_numbers", "xml_entity", "xml_deep", "xml_garbage", "member_drop", "member_empty",
-           "member_swap", "cd_forge", "xml_attr_drop", "xml_dup_children", "nonutf8"]
+           "member_swap", "cd_forge", "xml_attr_drop", "xml_dup_children", "nonutf8", "stored_overlong", "xml_huge_count"]
 TEXT_OPS = ["deep_braces", "deep_tags", "ctrl_numbers", "unbalanced", "long_line", "nul_bytes", "random_ctrl"]
 
 EXTREMES = [b"0", b"-1", b"1", b"255", b"65535", b"65536", b"2147483647", b"2147483648", b"4294967295", b"4294967296", b"9999999999999999999", b"-2147483649", b"1e309", b"NaN", b""]
@@ -131,6 +131,39 @@ def zip_mutate(data: bytes, op: str, rng: random.Random) -> bytes:
             off = rng.choice([20, 24])
             raw[p + off:p + off + 4] = struct.pack("<I", rng.choice([0, 1, 0xFFFFFFFF, 0x7FFFFFFF, 10**9]))
         return bytes(raw)
+    elif op == "stored_overlong":
+        # one member stored (not deflated) and declared longer than the bytes that are there: reading it runs through the
+        # central directory into the physical end of the file (zipfile raises a bare EOFError, a failure without a message)
+        raw = bytearray(_rezip(members, rng, stored=True))
+        pos = [m.start() for m in re.finditer(b"PK\x01\x02", bytes(raw))]
+        if pos:
+            p = pos[pick] if pick < len(pos) else rng.choice(pos)
+            size = struct.unpack("<I", raw[p + 20:p + 24])[0] + rng.choice([1, 64, len(raw), 10 * len(raw)])
+            raw[p + 20:p + 24] = struct.pack("<I", size)
+            raw[p + 24:p + 28] = struct.pack("<I", size)
+        return bytes(raw)
+    elif op == "xml_huge_count":
+        # repeat / count attributes far beyond memory: the expansion fails at once with a bare MemoryError
+        huge = rng.choice([b"1152921504606846976", b"4611686018427387904", b"9223372036854775807"])
+        cands = [(b"<text:p", b'<text:s text:c="' + huge + b'"/>'), (b"<table:table-cell", None), (b"<table:table-row", None)]
+        new = d
+        for needle, payload in cands:
+            i = d.find(needle)
+            if i < 0:
+                continue
+            j = d.find(b">", i)
+            if j < 0:
+                continue
+            if payload is not None and d[j - 1:j] != b"/":
+                new = d[:j + 1] + payload + d[j + 1:]
+            else:
+                attr = b' table:number-columns-repeated="' if needle == b"<table:table-cell" else b' table:number-rows-repeated="'
+                new = d[:i + len(needle)] + attr + huge + b'"' + d[i + len(needle):]
+            if rng.random() < 0.6:
+                break
+        if new is d:
+            new = text_mutate(d, "xml_numbers", rng)
+        members[pick] = (zi, new)
     else:
         members[pick] = (zi, text_mutate(d, op, rng))
     return _rezip(members, rng)
